@@ -386,8 +386,12 @@ class NotHandler(Handler):
             if norm(node.value) == "tokens.get_right()":
                 self.env[t] = self.queue.pop(0)
                 return
-            if isinstance(node.value, ast.Call) and len(node.value.args) == 1 and norm(node.value.args[0]) == t and isinstance(node.value.func, ast.Name):
-                self.env[t] = f"wrap({self.env[t]})"
+            if isinstance(node.value, ast.Call) and len(node.value.args) == 1 and isinstance(node.value.args[0], ast.Name) \
+                    and node.value.args[0].id in self.env and isinstance(node.value.func, ast.Name):
+                self.env[t] = f"wrap({self.env[node.value.args[0].id]})"
+                return
+            if isinstance(node.value, ast.Name) and node.value.id in self.env:
+                self.env[t] = self.env[node.value.id]
                 return
         if isinstance(node, ast.Expr) and isinstance(node.value, ast.Call):
             c = node.value
